@@ -3,6 +3,7 @@
    Model: Model/Url.v (net/url escaping, parseRequestURL), Model/H1Req.v (request writers). *)
 From ReqV Require Import Lib.Bytes Model.Url Model.HeaderCollect Model.BodyFraming Model.H1Req.
 From ReqV Require Import Proofs.UrlProofs Proofs.BodyFramingProofs Proofs.H1ReqProofs Proofs.H1EndToEnd Proofs.CrossProto.
+From ReqV Require Gen.C01Tables.
 From Coq Require Import Permutation.
 
 (* --- values are data: escaping is invertible and leaves no byte with a meaning in a URL --- *)
@@ -270,6 +271,17 @@ Theorem C01_cookie_crumbs_with_caller_header : forall cur cks, cur <> [] -> cks 
   crumbs (cookie_header cur cks) = crumbs (cur ++ [semi]) ++ map cookie_pair cks.
 Proof. exact cookie_crumbs_with_caller_header. Qed.
 Print Assumptions C01_cookie_crumbs_with_caller_header.
+
+(* --- tables regenerated from the Go source on every run (gosync): the byte set of
+   parseURLKeepEscapes is exactly the set URL.EscapedPath accepts; the marshalled-body content type --- *)
+Theorem C01_keep_escapes_table_matches : forall c,
+  valid_encoded_byte EPath c = in_src_ranges c || mem_byte c Gen.C01Tables.keep_escapes_plain.
+Proof. exact keep_escapes_table_matches. Qed.
+Print Assumptions C01_keep_escapes_table_matches.
+
+Theorem C01_json_content_type_matches : json_ct = Gen.C01Tables.json_content_type_src.
+Proof. exact json_content_type_matches. Qed.
+Print Assumptions C01_json_content_type_matches.
 
 (* non-vacuity: a template with two holes, overlapping client/request keys and hostile values *)
 Example C01_nonvacuous :
